@@ -96,14 +96,34 @@ def _reads_in_body_level(body, n):
 
 
 def fam_d(case, fl):
-    """class n reads its own name at class-body level, in its bases or in its decorators"""
-    if not _unsound(fl):
+    """n is the name of a class statement of the program: `_remove_from_missing_imports(n)` drops the reads of n seen
+    so far (own body / bases / decorators, or simply earlier in the module)"""
+    return _unsound(fl) and any(s[0] == "classDef" and s[1] == fl["name"] for s in _stmts(case))
+
+
+def fam_b2(case, fl):
+    """the name of an `except … as n` clause that is also bound in a caller namespace: the handler's implicit `del n`
+    unbinds the caller's name, which an analysis that never writes to the caller's namespaces cannot record"""
+    return fam_b(case, fl) and any(fl["name"] in d for d in fl.get("ns", []))
+
+
+def fam_imp(case, fl):
+    """imprecision: a dotted name below a package that an import statement of the program loads as a side effect
+    (`from pa.s2 import m1` makes `pa.s2` resolvable when `pa` was already bound)"""
+    if fl.get("what") != "reported name whose lookups all succeed":
         return False
-    n = fl["name"]
+    d = fl["name"].split(".")
     for s in _stmts(case):
-        if s[0] == "classDef" and s[1] == n:
-            if any(n in G.names_read(e) for e in s[2] + s[4]) or _reads_in_body_level(s[3], n):
-                return True
+        mods = []
+        if s[0] == "import":
+            mods = [m for m, a in s[1]]
+        elif s[0] == "importFrom":
+            mods = [s[1]] + [s[1] + "." + m for m, a in s[2]]
+        for m in mods:
+            mp = m.split(".")
+            for k in range(2, min(len(mp), len(d)) + 1):
+                if mp[:k] == d[:k]:
+                    return True
     return False
 
 
@@ -160,14 +180,32 @@ def fam_j(case, fl):
     return False
 
 
-def fam_code(case, fl):
-    return fl.get("variant") == "code"
+def _code(fl, what):
+    return fl.get("variant") == "code" and fl.get("what") == what
 
 
-FAMILIES = dict(classCompRead=fam_a, exceptNameAfter=fam_b, augUnbound=fam_c, ownClassName=fam_d,
+def fam_code_bound(case, fl):
+    """bytecode variant, unsound: the name has a binding statement somewhere in the program (the variant only looks for
+    a STORE of the same name in the same code object, before the load or anywhere once there is a backward jump)"""
+    return _code(fl, "NameError name not reported") and bool(G.binding_sites(fl["src"], fl["name"]))
+
+
+def fam_code_attr(case, fl):
+    """bytecode variant, unsound: `n.a = v` (LOAD n; STORE_ATTR a) is recorded as a store of `n.a`, never as a load of n"""
+    return _code(fl, "NameError name not reported") and fam_i(case, dict(fl, variant="ast"))
+
+
+def fam_code_imprecise(case, fl):
+    """bytecode variant, imprecise: `__annotations__`, or a (dotted) name whose head is bound by the program itself
+    (loads in a code object are only matched against stores of the identical dotted name in the same code object)"""
+    return _code(fl, "reported name whose lookups all succeed") and (
+        fl["name"] == "__annotations__" or bool(G.binding_sites(fl["src"], fl["name"].split(".")[0])))
+
+
+FAMILIES = dict(classCompRead=fam_a, exceptNameAfter=fam_b, augUnbound=fam_c, classNameRemoved=fam_d,
                 unexecutedBinding=fam_e, targetInHeader=fam_f, annAssignTarget=fam_g, attrStoreUnbound=fam_i,
-                paramInAnnotation=fam_j,
-                bytecodeVariant=fam_code)
+                paramInAnnotation=fam_j, exceptNameInCallerNs=fam_b2, importSideEffect=fam_imp,
+                codeStoreExists=fam_code_bound, codeAttrStore=fam_code_attr, codeImprecise=fam_code_imprecise)
 
 
 class C05(Prop):
@@ -238,7 +276,7 @@ class C05(Prop):
             r["report_code"] = self._report(code, nss)
             r["registry"] = G.registry_snapshot()
         G.universe_purge()
-        return dict(src=src, marker=marker, runs=runs)
+        return dict(src=src, marker=marker, runs=runs, fixes=G.probe_fixes())
 
     # -- oracle ----------------------------------------------------------------
     def oracle(self, case, obs):
@@ -247,6 +285,8 @@ class C05(Prop):
         runs = obs["runs"]
         if any(r["early"] for r in runs):
             return []          # a function ran before the last module-level statement: outside the domain
+        if case.get("ext"):
+            return []          # global / nonlocal / del: unclaimed extension, explored (K) but not judged
         fails = []
         for i, r in enumerate(runs):
             for variant, rep in (("ast", r["report"]), ("code", r["report_code"])):
@@ -315,7 +355,7 @@ class C05(Prop):
         b = self.builtins_scope()
         for r in obs["runs"]:
             ns, reg = self.model_ns(r["nsspec"], r["registry"])
-            reqs.append(dict(op="findMissing", prog=located, builtins=b, ns=ns, registry=reg))
+            reqs.append(dict(op="findMissing", prog=located, builtins=b, ns=ns, registry=reg, fixes=obs.get("fixes", {})))
         nb = len(case["prog"]["body"])
         for r in obs["runs"]:
             idx = {m: k for k, (m, _) in enumerate(r["registry"])}
